@@ -1,5 +1,11 @@
 package simrt
 
+import (
+	"fmt"
+	"runtime"
+	"strings"
+)
+
 // Simulated sync primitives. Zero values are ready to use, as in package sync.
 // Outside a simulation (package initialisation of rewritten code) they behave
 // as plain sequential objects.
@@ -20,7 +26,11 @@ func (m *Mutex) Lock() {
 		return
 	}
 	s.objID(&m.id)
-	s.yield(&pending{kind: "lock", site: "", obj: m.id, enabled: func() bool { return !m.locked }})
+	site := ""
+	if m.locked {
+		site = blockSite() // about to block: remember where (shown if the run deadlocks)
+	}
+	s.yield(&pending{kind: "lock", site: site, obj: m.id, enabled: func() bool { return !m.locked }})
 	m.locked = true
 	s.acquire(&m.vc)
 	s.event(s.cur, "lock", m.id, "", "")
@@ -98,7 +108,11 @@ func (m *RWMutex) Lock() {
 	}
 	s.objID(&m.id)
 	m.wwaiting++
-	s.yield(&pending{kind: "wlock", obj: m.id, enabled: func() bool { return !m.writer && m.readers == 0 }})
+	wsite := ""
+	if m.writer || m.readers != 0 {
+		wsite = blockSite()
+	}
+	s.yield(&pending{kind: "wlock", site: wsite, obj: m.id, enabled: func() bool { return !m.writer && m.readers == 0 }})
 	m.wwaiting--
 	m.writer = true
 	s.acquire(&m.vc)
@@ -135,7 +149,11 @@ func (m *RWMutex) RLock() {
 		return
 	}
 	s.objID(&m.id)
-	s.yield(&pending{kind: "rlock", obj: m.id, enabled: func() bool { return !m.writer && m.wwaiting == 0 }})
+	rsite := ""
+	if m.writer || m.wwaiting != 0 {
+		rsite = blockSite()
+	}
+	s.yield(&pending{kind: "rlock", site: rsite, obj: m.id, enabled: func() bool { return !m.writer && m.wwaiting == 0 }})
 	m.readers++
 	s.acquire(&m.vc)
 	s.event(s.cur, "rlock", m.id, "", "")
@@ -591,4 +609,17 @@ func SetPoolFresh(on bool) {
 	if cur != nil {
 		cur.poolFresh = on
 	}
+}
+
+// blockSite is the source position of the code that called the blocking
+// primitive (two frames up), relative to the rewritten tree.
+func blockSite() string {
+	_, file, line, ok := runtime.Caller(2)
+	if !ok {
+		return ""
+	}
+	if i := strings.LastIndex(file, "/glb/"); i >= 0 {
+		file = file[i+5:]
+	}
+	return fmt.Sprintf("%s:%d", file, line)
 }
